@@ -50,6 +50,13 @@ fn put64(b: &mut [u8], o: usize, v: u64) {
         b[o..o + 8].copy_from_slice(&v.to_be_bytes());
     }
 }
+fn get32(b: &[u8], o: usize) -> u32 {
+    if o.saturating_add(4) <= b.len() {
+        u32::from_be_bytes(b[o..o + 4].try_into().unwrap())
+    } else {
+        0
+    }
+}
 fn get64(b: &[u8], o: usize) -> u64 {
     if o.saturating_add(8) <= b.len() {
         u64::from_be_bytes(b[o..o + 8].try_into().unwrap())
@@ -164,9 +171,9 @@ fn mutate(img: &mut Vec<u8>, rng: &mut Rng, cs: u64) -> (String, bool) {
         13 => {
             // unknown / unsupported incompatible feature bits (version 3 only)
             let bit = *rng.pick(&[1u32, 2, 3, 4, 5, 17, 63]);
-            if u32::from_be_bytes(img[4..8].try_into().unwrap()) >= 3 {
+            if get32(img, 4) >= 3 {
                 put64(img, 72, 1u64 << bit);
-                if bit == 3 {
+                if bit == 3 && img.len() > 104 {
                     img[104] = 1;
                 }
                 (format!("incompatible_features bit {bit}"), true)
@@ -181,7 +188,7 @@ fn mutate(img: &mut Vec<u8>, rng: &mut Rng, cs: u64) -> (String, bool) {
         }
         15 => {
             let v = *rng.pick(&[7u32, 8, 16, 63, 64, 255, 0xffff_ffff]);
-            if u32::from_be_bytes(img[4..8].try_into().unwrap()) >= 3 {
+            if get32(img, 4) >= 3 {
                 put32(img, 96, v);
                 (format!("refcount_order={v}"), true)
             } else {
@@ -201,7 +208,7 @@ fn mutate(img: &mut Vec<u8>, rng: &mut Rng, cs: u64) -> (String, bool) {
         }
         18 => {
             // extension header with an odd / huge length
-            let hl = u32::from_be_bytes(img[100..104].try_into().unwrap()) as usize;
+            let hl = get32(img, 100) as usize;
             let at = if (104..4000).contains(&hl) { hl } else { 112 };
             let ty = *rng.pick(&[0x6803_f857u32, 0xe279_2aca, 0x1234_5678, 0x2385_2875]);
             let len = *rng.pick(&[1u32, 2, 47, 49, 97, 4000, 0xffff, 0x7fff_ffff, 0xffff_ffff]);
@@ -212,7 +219,7 @@ fn mutate(img: &mut Vec<u8>, rng: &mut Rng, cs: u64) -> (String, bool) {
         19 | 20 => {
             // an L1 entry pointing anywhere
             let l1 = get64(img, 40) as usize;
-            let n = u32::from_be_bytes(img[36..40].try_into().unwrap()) as usize;
+            let n = get32(img, 36) as usize;
             let i = rng.below(n.max(1) as u64) as usize;
             let v = match rng.below(5) {
                 0 => interesting64(rng),
@@ -227,7 +234,7 @@ fn mutate(img: &mut Vec<u8>, rng: &mut Rng, cs: u64) -> (String, bool) {
         21 | 22 | 23 => {
             // an L2 entry pointing anywhere / odd compressed descriptor
             let l1 = get64(img, 40) as usize;
-            let n = u32::from_be_bytes(img[36..40].try_into().unwrap()) as usize;
+            let n = get32(img, 36) as usize;
             let mut done = None;
             for k in 0..n {
                 let e = get64(img, l1.saturating_add(k * 8)) & 0x00ff_ffff_ffff_fe00;
@@ -281,16 +288,20 @@ fn mutate(img: &mut Vec<u8>, rng: &mut Rng, cs: u64) -> (String, bool) {
         28 => {
             // random bytes in the header cluster
             for _ in 0..rng.range(1, 16) {
-                let o = rng.below(cs.min(flen)) as usize;
-                img[o] = rng.next() as u8;
+                let o = rng.below(cs.min(flen).max(1)) as usize;
+                if o < img.len() {
+                    img[o] = rng.next() as u8;
+                }
             }
             ("random bytes in the header cluster".into(), false)
         }
         _ => {
             // random bytes anywhere in the metadata
             for _ in 0..rng.range(1, 8) {
-                let o = rng.below(flen) as usize;
-                img[o] = rng.next() as u8;
+                let o = rng.below(flen.max(1)) as usize;
+                if o < img.len() {
+                    img[o] = rng.next() as u8;
+                }
             }
             ("random bytes anywhere".into(), false)
         }
